@@ -417,6 +417,7 @@ type c02World struct {
 	overDemand                                    int             // settle rounds in which addresses were requested although enough were idle
 	inSettle                                      bool
 	writeLost                                     bool              // a record write failed and no later pass has persisted a full sync yet
+	failedWrites                                  int               // 1 if the latest pass whose record write failed had changed the cloud (the controller then must resync)
 	settleTail                                    [][]cloudctl.Call // calls of the last settle rounds
 	nilMapHit                                     map[string]bool   // "<eni>/<4|6>": a full sync was told addresses of a family the record held no map for
 
